@@ -126,12 +126,18 @@ PROPS = {
         title='Registries consult exactly their current base chain, in resolution order',
         contracts=['C04_lookup', 'C09_registry'], falsifier='C06', modes=['py', 'c'], level='other',
         only={'C04_lookup': ['adapter.py:AdapterLookupBase._uncached_lookup'],
-              'C09_registry': ['adapter.py:BaseAdapterRegistry.changed', 'adapter.py:AdapterRegistry.changed']},
+              'C09_registry': ['adapter.py:BaseAdapterRegistry.changed', 'adapter.py:AdapterRegistry.changed',
+                               'adapter.py:BaseAdapterRegistry._setBases', 'adapter.py:AdapterRegistry._setBases',
+                               'adapter.py:AdapterRegistry._addSubregistry', 'adapter.py:AdapterRegistry._removeSubregistry']},
         level_text='_uncached_lookup is verified to consult the registries of the stored resolution order nearest first and to '
-                   'stop at the first hit. That the stored order is the current C3 order of the base chain after any re-basing '
-                   'is checked bounded on random registry DAGs/histories of both flavours; the recorded defect (stale order of '
-                   'descendants of a re-based registry) is announced as KNOWN-FINDING.',
-        level_note='known finding C06-stale-ro-of-descendants; the re-basing machinery is bounded only.',
+                   'stop at the first hit. Assigning __bases__ is verified from the real bodies: BaseAdapterRegistry._setBases records '
+                   'the bases, stores exactly the C3 order ro.ro computes from the base graph as it then is, leaves every other '
+                   'registry\'s bases and order alone and notifies last; AdapterRegistry._setBases additionally leaves the registry '
+                   'linked as sub-registry of every new base and of no dropped one, touching no other link. That the stored orders '
+                   'of the DESCENDANTS follow is not a consequence of these contracts -- it is the recorded defect (stale order of '
+                   'descendants of a re-based registry), announced as KNOWN-FINDING; the end-to-end statement is checked bounded on '
+                   'random registry DAGs/histories of both flavours, continuing past the recorded deviation.',
+        level_note='known finding C06-stale-ro-of-descendants; ro.ro by assumed contract (C03); VerifyingBase generation checks bounded.',
         explanation='walk order proved; freshness of the stored order decided by bounded checking; one recorded genuine defect',
     ),
     'C01': dict(
